@@ -283,6 +283,9 @@ class _ReadSourceGenerator:
             field_type = field_type.type
 
         if issubclass(field_type, Char):
+            # The value is a plain integer, but the storage unit is that of the char type itself: it must not be
+            # shared with neighbouring uint8 bit fields (the interpreted reader and the layout don't either)
+            read_type = lookup
             field_type = field_type.cs.uint8
             lookup = "cls.cs.uint8"
 
